@@ -119,6 +119,12 @@ func runCLIMode(ctx context.Context, c *Case, m Mode, hcl bool, root string) (re
 	res.NChanges = len(changes)
 	res.PlanKinds = planKinds(ctx, client, changes)
 	client.Close()
+	// the model's input (as in the api stage): the CLI opens its transaction through sqlite.OpenTx
+	fkState, inTx := m.FK, m.Tx != "none"
+	if inTx {
+		fkState = false
+	}
+	res.TieCase, res.TieSkip = tieCase(ctx, before, cur, changes, fkState, inTx)
 	r := clirun.Run(dir, nil, args...)
 	var applyErr error
 	if r.Exit != 0 {
@@ -142,6 +148,15 @@ func runCLIMode(ctx context.Context, c *Case, m Mode, hcl bool, root string) (re
 	res.Before, res.After = before, after
 	in := &oracleIn{ctx: ctx, cur: &c.Cur, des: &c.Des, before: before, after: after, changed: changedTables(changes), applyErr: applyErr, mode: m}
 	res.Verdicts, res.Stats = in.check()
+	if res.Stats["rowid-alias-null-assigned"] > 0 {
+		res.TieSkip = "rowid-alias-null"
+	}
+	if res.TieSkip == "" {
+		res.TieObs = tieObs(before, after, res.ErrClass)
+		if res.TieObs == nil {
+			res.TieSkip = "refusal-not-modelled"
+		}
+	}
 	return
 }
 
